@@ -550,18 +550,28 @@ def accepts (p : Proto) (h : Host) (a : Auth) : Bool :=
   | .ok _ => true
   | .error _ => false
 
-/-- which destination kinds each class accepts -/
+/-- which destination kinds each class accepts: IPv4, IPv6, host name, the SOCKS4a marker
+    form 0.0.0.5 (F26) and a zone-scoped IPv6 address (F27) -/
 theorem facts_accepts :
     Facts.C16.socks4Accepts =
       [accepts .socks4 (.ipv4 (vec4 1 2 3 4)) none, accepts .socks4 (.ipv6 probeV6) none,
-       accepts .socks4 (.name probeName) none] ∧
+       accepts .socks4 (.name probeName) none, accepts .socks4 (.ipv4 (vec4 0 0 0 5)) none,
+       accepts .socks4 (.ipv6z probeV6) none] ∧
     Facts.C16.socks4aAccepts =
       [accepts .socks4a (.ipv4 (vec4 1 2 3 4)) none, accepts .socks4a (.ipv6 probeV6) none,
-       accepts .socks4a (.name probeName) none] ∧
+       accepts .socks4a (.name probeName) none, accepts .socks4a (.ipv4 (vec4 0 0 0 5)) none,
+       accepts .socks4a (.ipv6z probeV6) none] ∧
     Facts.C16.socks5Accepts =
       [accepts .socks5 (.ipv4 (vec4 1 2 3 4)) none, accepts .socks5 (.ipv6 probeV6) none,
-       accepts .socks5 (.name probeName) none] := by
+       accepts .socks5 (.name probeName) none, accepts .socks5 (.ipv4 (vec4 0 0 0 5)) none,
+       accepts .socks5 (.ipv6z probeV6) none] := by
   decide
+
+/-- **Assumption made visible**: credentials are a `SOCKSUserAuth`; any other object - here the
+    plain tuple `("ab", "cde")` - is treated exactly like `None` (no method 2 offered, nothing
+    of it sent) -/
+theorem facts_tuple_auth_is_no_auth :
+    Facts.C16.socks5TupleAuthSel0 = Facts.C16.socks5NoAuthSel0 := by decide
 
 /-- the accepted RFC 1929 field lengths are exactly 1..255 -/
 theorem facts_credential_lengths :
